@@ -125,11 +125,13 @@ static void print_recs(void)
 }
 
 /* custom-callback access: an independent implementation of the read/seek contract of zstd_seekable.h */
-typedef struct { const unsigned char* p; size_t size; size_t head; unsigned long long nread, nseek; } cbsrc_t;
+typedef struct { const unsigned char* p; size_t size; size_t head; unsigned long long nread, nseek;
+                 unsigned long long fail_seek, fail_read;   /* fault injection: the k-th next call fails once (0 = never) */ } cbsrc_t;
 static int cb_read(void* opaque, void* buffer, size_t n)
 {
     cbsrc_t* s = (cbsrc_t*)opaque; size_t i;
     s->nread++;
+    if (s->fail_read && --s->fail_read == 0) return -1;   /* injected transient I/O error */
     if (n > s->size - s->head) return -1;              /* premature EOF is an error */
     for (i = 0; i < n; i++) ((unsigned char*)buffer)[i] = s->p[s->head + i];
     s->head += n;
@@ -139,6 +141,7 @@ static int cb_seek(void* opaque, long long offset, int origin)
 {
     cbsrc_t* s = (cbsrc_t*)opaque; long long base, np;
     s->nseek++;
+    if (s->fail_seek && --s->fail_seek == 0) return -1;   /* injected transient I/O error */
     base = origin == SEEK_SET ? 0 : origin == SEEK_END ? (long long)s->size : (long long)s->head;
     np = base + offset;
     if (np < 0 || (unsigned long long)np > s->size) return -1;
@@ -311,7 +314,7 @@ int main(int argc, char** argv)
             } else {
                 ZSTD_seekable_customFile cf;
                 memcopy = (unsigned char*)malloc(A.n ? A.n : 1); if (A.n) memcpy(memcopy, A.p, A.n);
-                cbsrc.p = memcopy; cbsrc.size = A.n; cbsrc.head = 0; cbsrc.nread = cbsrc.nseek = 0;
+                cbsrc.p = memcopy; cbsrc.size = A.n; cbsrc.head = 0; cbsrc.nread = cbsrc.nseek = 0; cbsrc.fail_seek = cbsrc.fail_read = 0;
                 cf.opaque = &cbsrc; cf.read = cb_read; cf.seek = cb_seek;
                 r = ZSTD_seekable_initAdvanced(zs, cf);
             }
@@ -320,6 +323,11 @@ int main(int argc, char** argv)
             else { close_seekable(); }
             g_nrec = 0;
             printf("\n");
+        } else if (!strcmp(cmd, "cbfail")) {        /* cbfail seek|read <k> : the k-th next callback of that kind fails once (callback access only) */
+            char what[16]; unsigned long long k = 0; what[0] = 0;
+            sscanf(line + off, "%15s %llu", what, &k);
+            if (!strcmp(what, "seek")) cbsrc.fail_seek = k; else cbsrc.fail_read = k;
+            printf("cbfail %s %llu\n", what, k);
         } else if (!strcmp(cmd, "table")) {         /* all accessors for i in 0..n+2 and 2^32-1, through both API families */
             unsigned n, i; ZSTD_seekTable* st;
             if (!zs) { printf("table closed\n"); continue; }
